@@ -125,7 +125,9 @@ func (s *snapshots) open() (*snapshot, error) {
 	if err != nil {
 		return nil, err
 	}
+	s.usedMu.Lock()
 	s.used[meta.index]++
+	s.usedMu.Unlock()
 	return &snapshot{
 		snaps: s,
 		meta:  meta,
